@@ -59,7 +59,7 @@ def tiers(ctx):
     # 9-15 minutes on the loaded machine).
     if ctx.tier == "quick":
         return [("full", 20, 22, 1), ("s1", 4, 16, 1), ("s1c", 8, 20, 1), ("ml", 8, 12, 1)]
-    return [("full", 500, 40, 1), ("s1", 60, 30, 1), ("s1c", 140, 36, 1), ("ml", 64, 24, 1)]
+    return [("full", 500, 40, 1), ("s1", 60, 30, 1), ("s1c", 140, 36, 1), ("ml", 48, 20, 1)]
 
 
 def summarize(h, k):
@@ -157,11 +157,34 @@ def minimise_case(ctx, binp, ops, sections):
         return ops
 
 
+def lock_shapes(o):
+    """(targets with >= 2 stored associated objects, targets whose LOWEST-ID associated object is not a live lock
+    while a higher-ID one is) in one observed state -- the situation in which "locked" is decided by an entry of the
+    association index that is neither the first nor the only one."""
+    multi = hidden = 0
+    for c in o.get("cnrs", []):
+        if not c.get("present") or c.get("cgc"):
+            continue
+        marked = {g[0] for g in c["garb"] if g[1] == 0}
+        by = {}
+        for x in sorted(c["objs"], key=lambda x: x["id"]):
+            if x["as"]:
+                live = x["t"] == 2 and (x["exp"] < 0 or x["exp"] >= o["epoch"]) and x["id"] not in marked
+                by.setdefault(x["as"], []).append(live)
+        for lives in by.values():
+            if len(lives) >= 2:
+                multi += 1
+                if not lives[0] and any(lives[1:]):
+                    hidden += 1
+    return multi, hidden
+
+
 def coverage(ctx, hs, res, known, sections, rule_extra=""):
     steps = sum(1 for h in hs for s in h["steps"] if s.get("obs"))
     digests = set()
     nontrivial = 0
     status_hist = {}
+    shapes = {"states_with_a_target_of_2+_associated_objects": 0, "states_where_the_lowest_ID_associated_object_is_no_live_lock_but_a_higher_one_is": 0}
     for h in hs:
         for s in h["steps"]:
             o = s.get("obs")
@@ -171,6 +194,9 @@ def coverage(ctx, hs, res, known, sections, rule_extra=""):
             if d in digests:
                 continue
             digests.add(d)
+            mu, hi = lock_shapes(o)
+            shapes["states_with_a_target_of_2+_associated_objects"] += 1 if mu else 0
+            shapes["states_where_the_lowest_ID_associated_object_is_no_live_lock_but_a_higher_one_is"] += 1 if hi else 0
             classes = {c for row in o["exists"] for c in row}
             for row in o["exists"]:
                 for c in row:
@@ -199,6 +225,7 @@ def coverage(ctx, hs, res, known, sections, rule_extra=""):
         "exists_class_histogram": {{0: "absent", 1: "ok", 2: "not_found", 3: "removed", 4: "expired", 5: "split_parent", 6: "ec_parent", 7: "other"}[k]: v
                                    for k, v in sorted(status_hist.items())},
         "known_class_hits": len(known),
+        "association_shapes(distinct observed states)": shapes,
         "samples": [{"ops": sample["ops"][:6], "results": [s["res"] for s in sample["steps"][:6]],
                      "exists_after_6": (sample["steps"][min(5, len(sample["steps"]) - 1)].get("obs") or {}).get("exists")}] if sample else [],
     })
